@@ -71,11 +71,9 @@ impl MainState {
 
 // ===== the session-ending arms of process_internal (C06: ping timeout and KILL end the session; C11: the killed user is told who did it) =====
 impl MainState {
-//@block state/mod.rs MainState::process_internal arm_pong_timeout unit=step props=C06,C05 rules=R2,R3,R6q from=~|info!\("Pong timeout for| to=~|conn_state\.quit\.store\(1, Ordering::SeqCst\);|
+//@block state/mod.rs MainState::process_internal arm_pong_timeout unit=step props=C06,C05 rules=R2,R3,R6q from=~|info!\("Pong timeout for| to=~|^\s*Ok\(\(\)\)\s*$|
 //@head
     pub async fn arm_pong_timeout(&self, conn_state: &mut ConnState, Tracked(sig): Tracked<&mut Signals>) -> (r: Result<(), HErr>)
-//@epilogue
-                Ok(())
 //@spec
         ensures
             // the silent client is sent an ERROR and the connection is flagged to end (the loop then runs the clean-up of C06)
@@ -83,11 +81,9 @@ impl MainState {
             final(conn_state).stream.log() == old(conn_state).stream.log().push(fed::<&str>(self.config.name@, "ERROR :Pong timeout, connection will be closed.")), // @prop C06
 //@end
 
-//@block state/mod.rs MainState::process_internal arm_killed unit=step props=C11,C06,C05 rules=R2,R3,R6q,R23 from=~|info!\("User \{\} killed by \{\}: \{\}"| to=~|conn_state\.quit\.store\(1, Ordering::SeqCst\);|
+//@block state/mod.rs MainState::process_internal arm_killed unit=step props=C11,C06,C05 rules=R2,R3,R6q,R23 from=~|info!\("User \{\} killed by \{\}: \{\}"| to=~|^\s*Ok\(\(\)\)\s*$|
 //@head
     pub async fn arm_killed(&self, conn_state: &mut ConnState, killer: String, comment: String, Tracked(sig): Tracked<&mut Signals>) -> (r: Result<(), HErr>)
-//@epilogue
-                Ok(())
 //@spec
         ensures
             // the killed user is told who did it and why, and the connection is flagged to end
